@@ -288,6 +288,17 @@ class History:
             a.pop()
         return [x for x in a]
 
+    def trim_for_restart(self, args):
+        """A restart is run with the arguments of the caching run; every other restart of a history leaves out the trailing
+        arguments that have a default - the file holds the values the caching run was given, and they win over the defaults
+        (C18: the restart returns the same value)."""
+        a = self.trim(args)
+        self.nrestarts = getattr(self, "nrestarts", 0) + 1
+        if self.nrestarts % 2 == 0:
+            while a and self.D["defaults"][len(a) - 1] != -1:
+                a.pop()
+        return a
+
     def op_setup(self, i, r=-1, xx=-1, t=-1):
         kw = {}
         if r != -1:
@@ -332,7 +343,7 @@ class History:
         i = [k for k, d in self.inst.items() if d is exe.dag][0]
         if fc:
             args = self.files[fc][1]         # a restart is run with the arguments of the caching run
-        a = self.trim(args)
+        a = self.trim_for_restart(args) if fc else self.trim(args)
         ev, ret = self.observe("cacherun" if f else "exrun", i, lambda: self.run(exe, *a), args, extra={"x": x, "f": f})
         if ev["out"] == 0:
             try:
@@ -368,7 +379,7 @@ class History:
             return
         path, args = self.files[f]
         kw = self.sel_kwargs(r, xx, t, dep)
-        a = self.trim(args)
+        a = self.trim_for_restart(args)
 
         def go():
             exe = self.inst[i].executor(from_cache=path, **kw)
